@@ -387,6 +387,12 @@ class HierDictDocument(DictDocument):
                 if subinst is None:
                     subinst = []
 
+                try:
+                    v = iter(v)
+                except TypeError:
+                    # a scalar or a null where a sequence of values is expected
+                    raise ValidationError(v)
+
                 nitems = len(subinst)
                 for a in v:
                     subinst.append(
